@@ -538,10 +538,10 @@ def gen_cases(tier, rng):
     K.quiet()
     idx = {n: json.load(open(os.path.join(K.VERIF, "corpus", "C03_corpus_index.json")))[n] for n in ("usp", "eco")}
     pairs_tbl = json.load(open(os.path.join(K.VERIF, "corpus", "C03_pairs.json")))["pairs"]
-    pairs = list(Gn.hand_pairs())
+    pairs = list(Gn.hand_pairs(full_all=(tier != "quick")))
     if tier == "quick":
         pick = {"usp": rng.sample(idx["usp"], 8), "eco": rng.sample(idx["eco"], 10)}
-        nfor, k_sub, k_tpl, cap = 2, 2, 2, 14.0
+        nfor, k_sub, k_tpl, cap = 2, 1, 1, 14.0
     else:
         pick = {"usp": rng.sample(idx["usp"], 60), "eco": rng.sample(idx["eco"], 100)}
         nfor, k_sub, k_tpl, cap = 4, 2, 2, 30.0
